@@ -383,6 +383,8 @@ func runC03more(c *Ctx) {
 	checkDirectionCells(c, "C03.11", true)
 	// ---------------------------------------------------------------- C03.13
 	runC03NoWriteAfterEnd(c)
+	// ---------------------------------------------------------------- C03.14
+	runC03EndNotOverridden(c)
 	// ---------------------------------------------------------------- C03.12
 	c.Rule("C03.12", "an enveloped unit is decompressed exactly when its own envelope's compressed flag says so", 2)
 	checkUnitFlagDecompress(c, "C03.12")
@@ -820,4 +822,83 @@ func runC03NoWriteAfterEnd(c *Ctx) {
 	if nW == 0 {
 		c.Trivial("C03.13", FuncName(rwClose), "final-write-only-before-end", rwClose.Pos(), "no finalising write")
 	}
+}
+
+// runC03EndNotOverridden: C03.14 (defect D26).  The end of the RPC is merged into the header map
+// of the client's response (as HTTP trailers).  The handler behind the transcoder writes to the
+// same map through responseWriter.Header().  Two things keep the handler from changing the
+// outcome the transcoder reported: the live map is handed out only while the end has not been
+// written, and the end's trailers replace what is already stored under their keys.
+func runC03EndNotOverridden(c *Ctx) {
+	p := c.P
+	c.Rule("C03.14", "the handler cannot override a written end: Header() detaches after the end; the end's trailers replace existing values", 2)
+	rwPT := types.NewPointer(p.MustNamed("responseWriter"))
+	hdr := p.MethodOf(rwPT, "Header")
+	if hdr == nil {
+		fatalf("anchor=responseWriter.Header not found")
+	}
+	endWrittenF := p.MustField("responseWriter", "endWritten")
+	delegateF := p.MustField("responseWriter", "delegate")
+	paths, ok := EnumPaths(hdr.Blocks[0], nil, IsReturn, 0)
+	if !ok {
+		c.Unknown("C03.14", FuncName(hdr), "paths", hdr.Pos(), "too many paths")
+	}
+	bad, nLive := 0, 0
+	for _, cp := range paths {
+		ret := cp.End.(*ssa.Return)
+		live := false
+		for _, l := range Origins(cp.Deref(ret.Results[0])) {
+			if l.Kind == "call" && l.Call.Common().IsInvoke() && N(l.Call.Common().Method) == "Header" && LoadedField(l.Call.Common().Value) == delegateF {
+				live = true
+			}
+		}
+		if !live {
+			continue
+		}
+		nLive++
+		notEnded := false
+		for cond, truth := range cp.Truth {
+			if LoadedField(cond) == endWrittenF && !truth {
+				notEnded = true
+			}
+		}
+		if !notEnded {
+			bad++
+		}
+	}
+	c.Check(bad == 0 && nLive > 0, "C03.14", FuncName(hdr), "live-headers-only-before-end", hdr.Pos(),
+		"the client response's own header map is handed to the handler only on paths that know the end has not been written",
+		"responseWriter.Header() hands out the live header map of the client's response even after the end was written: a handler that sets its own trailers afterwards (grpc-status 0) replaces or precedes the error the transcoder reported, and the client sees success")
+
+	// the merge of the end's trailers replaces
+	merge := p.MustFunc("httpMergeTrailers")
+	nAdd, replaced := 0, true
+	for _, m := range HeaderMutations(merge) {
+		if m.Op != "Add" && m.Op != "index" {
+			continue
+		}
+		if m.Op == "index" {
+			nAdd++
+			continue // header[key] = vals : replaces by construction
+		}
+		nAdd++
+		// a Del / Set of the same key on every path from the loop head of this key to the Add
+		isClear := func(in ssa.Instruction) bool {
+			for _, m2 := range HeaderMutations(merge) {
+				if m2.Instr == in && (m2.Op == "Del" || m2.Op == "delete" || m2.Op == "Set") && m2.Key != nil && (m2.Key == m.Key || originSig(m2.Key) == originSig(m.Key)) {
+					return true
+				}
+			}
+			return false
+		}
+		found, _ := PathQuery{Target: func(in ssa.Instruction) bool { return in == m.Instr }, Avoid: isClear}.Search(merge, nil)
+		// (a path that reaches the Add again through the value loop after a clear is fine: the
+		// search from the entry finds any path that never passed a clear)
+		if found {
+			replaced = false
+		}
+	}
+	c.Check(replaced && nAdd > 0, "C03.14", FuncName(merge), "end-trailers-replace", merge.Pos(),
+		"the end's trailers are stored after clearing what was under the same key",
+		"the end's trailers are only added to the header map: a status the handler stored before under the same trailer key stays first and wins")
 }
